@@ -122,7 +122,7 @@ func genVal(r *simrt.RNG, typ string, notnull bool, row int) gpkgh.Val {
 		return gpkgh.Val{}
 	}
 	switch typ {
-	case "INTEGER", "MEDIUMINT", "INT":
+	case "INTEGER", "MEDIUMINT", "INT", "BIGINT", "NUMERIC", "DECIMAL": // (NUMERIC affinity: integers stay integers)
 		if r.Chance(0.1) {
 			return gpkgh.IntVal(int64(r.Uint64()>>2) - (1 << 61)) // beyond 2^53
 		}
@@ -328,7 +328,7 @@ func genWork(seed uint64) (gwork, simrt.FaultPlan, simrt.MapPolicy, uint64) {
 		nattr = 30 + r.Intn(50) // a wide table: statements with many bound parameters
 	}
 	for i, n := 0, nattr; i < n; i++ {
-		typ := []string{"INTEGER", "REAL", "TEXT", "DOUBLE", "MEDIUMINT", "TEXT(20)", "Integer", "text", "Real", "DOUBLE PRECISION", "VARCHAR(10)"}[r.Intn(11)]
+		typ := []string{"INTEGER", "REAL", "TEXT", "DOUBLE", "MEDIUMINT", "TEXT(20)", "Integer", "text", "Real", "DOUBLE PRECISION", "VARCHAR(10)", "BIGINT", "NUMERIC", "DECIMAL(10,2)"}[r.Intn(14)]
 		attrs = append(attrs, gpkgh.Column{Name: ident(r, used), Type: typ, NotNull: r.Chance(0.3)})
 	}
 	geomNotNull := r.Chance(0.3)
